@@ -61,7 +61,7 @@ class OpView:
             inline = DEPTH["inline"]
         k = (bid, variant, inline, DEPTH["max_visits"])
         if k not in self._arms:
-            ps = enumerate_paths(self.P, self.P.bodies[bid], variant, max_visits=DEPTH["max_visits"], inline=inline, limit=200000)
+            ps = enumerate_paths(self.P, self.P.bodies[bid], variant, max_visits=DEPTH["max_visits"], inline=inline, limit=20000)
             self._arms[k] = [p for p in ps if not none_after_some_infeasible(p)]
         return self._arms[k]
 
@@ -90,7 +90,7 @@ class OpView:
                 if e.variant == "UNKNOWN" and e.get("msg") is not None and e.msg[0] == "phi":
                     # a message built in a multi-assigned local: one pseudo send per alternative (same site)
                     alts = [send_fields(a) for a in e.msg[1]]
-                    if alts and all(a[0] in VARIANTS for a in alts):
+                    if alts and all(a[0] in VARIANTS or a[0] == "INCOMING" for a in alts):
                         seen = set()
                         for (sv, pl) in alts:
                             if sv in seen:
